@@ -45,6 +45,7 @@ func suiteC15(cfg Config, res *Result) {
 			text         string
 			isTag        bool // {% %}
 			isVar        bool // {{ }}
+			isComment    bool // {# #}: emits nothing, but separates the text before it from the text behind it
 			inner        string
 			dashL, dashR bool
 		}
@@ -61,6 +62,12 @@ func suiteC15(cfg Config, res *Result) {
 			k := 1 + rng.Intn(3)
 			for j := 0; j < k; j++ {
 				addText()
+				if rng.Chance(1, 5) {
+					// a comment in the middle of literal text: a '-' or an option reaches the text next
+					// to the delimiter only, not the text on the far side of the comment
+					toks = append(toks, tok{isComment: true, inner: rng.Pick([]string{" note ", "", "-", " x -"})})
+					addText()
+				}
 				switch x := rng.Intn(7); {
 				case x == 0 && d > 0:
 					addTag("if t")
@@ -96,6 +103,8 @@ func suiteC15(cfg Config, res *Result) {
 		var src strings.Builder
 		for _, t := range toks {
 			switch {
+			case t.isComment:
+				src.WriteString("{#" + t.inner + "#}")
 			case t.isTag, t.isVar:
 				o, c := "{%", "%}"
 				if t.isVar {
@@ -126,7 +135,10 @@ func suiteC15(cfg Config, res *Result) {
 		}
 		var segs []seg
 		for j, t := range toks {
-			if !t.isTag && !t.isVar {
+			if !t.isTag && !t.isVar && !t.isComment {
+				if t.text == "" {
+					continue // empty text is no token at all
+				}
 				if len(segs) > 0 && segs[len(segs)-1].isText {
 					segs[len(segs)-1].text += t.text
 				} else {
@@ -144,12 +156,23 @@ func suiteC15(cfg Config, res *Result) {
 					continue
 				}
 				txt := segs[k].text
+				// the neighbours are the neighbouring *tokens*: a comment leaves no token, so the text
+				// behind `-}}{# c #}` is still next to the delimiter, while of two texts separated by a
+				// comment only the one on the delimiter's side is
 				var prev, next *tok
-				if k > 0 {
-					prev = &toks[segs[k-1].j]
+				pk := k - 1
+				for pk >= 0 && !segs[pk].isText && toks[segs[pk].j].isComment {
+					pk--
 				}
-				if k+1 < len(segs) {
-					next = &toks[segs[k+1].j]
+				if pk >= 0 && !segs[pk].isText {
+					prev = &toks[segs[pk].j]
+				}
+				nk := k + 1
+				for nk < len(segs) && !segs[nk].isText && toks[segs[nk].j].isComment {
+					nk++
+				}
+				if nk < len(segs) && !segs[nk].isText {
+					next = &toks[segs[nk].j]
 				}
 				// options first (as the implementation does), then the '-' markers
 				if trim && prev != nil && prev.isTag && strings.HasPrefix(txt, "\n") {
@@ -174,6 +197,10 @@ func suiteC15(cfg Config, res *Result) {
 					continue
 				}
 				t := toks[s.j]
+				if t.isComment {
+					stripped.WriteString("{#" + t.inner + "#}")
+					continue
+				}
 				if t.dashL || t.dashR {
 					marked = true
 				}
@@ -202,6 +229,9 @@ func suiteC15(cfg Config, res *Result) {
 		if i%5 == 0 {
 			set, _ := pc.buildSet()
 			if tpl, err := pc.compile(set); err == nil {
+				// a sibling compiled from the same set keeps the options it was compiled with
+				sib, _ := pc.compile(set)
+				sibWant := (ProgCase{Src: strippedSrc, Ctx: &ct}).RunImpl()
 				order := [][2]bool{{false, false}, {true, false}, {false, true}, {true, true}}
 				for a := len(order) - 1; a > 0; a-- {
 					b := rng.Intn(a + 1)
@@ -214,6 +244,12 @@ func suiteC15(cfg Config, res *Result) {
 					want := (ProgCase{Src: ss, Ctx: &ct}).RunImpl()
 					if want.Class != "ok" {
 						break
+					}
+					if sib != nil && sibWant.Class == "ok" {
+						if gs := execOnce(sib, ct.Go()); gs.err != "" || gs.pan != "" || gs.out != sibWant.Out {
+							res.add(Finding{Kind: "oracle", Proj: "whitespace", Sig: "c15-options-of-another-template", Case: fmt.Sprintf("src=%q compiled twice in one set (options trim=%v lstrip=%v); the other template's options set to trim=%v lstrip=%v", src.String(), trim, lstrip, o[0], o[1]), Impl: gs.String(), Model: "hand-stripped source renders ok " + hxb(sibWant.Out)})
+							break
+						}
 					}
 					if got.err != "" || got.pan != "" || got.out != want.Out {
 						res.add(Finding{Kind: "oracle", Proj: "whitespace", Sig: "c15-options-of-an-earlier-execution", Case: fmt.Sprintf("src=%q executed under %v in turn, now trim=%v lstrip=%v", src.String(), order, o[0], o[1]), Impl: got.String(), Model: "hand-stripped source renders ok " + hxb(want.Out)})
